@@ -974,6 +974,26 @@ func (rn *runner) classifySkip(src *source, pos int, got srcData, obs map[string
 	if m == 0 {
 		return "entry-skipped"
 	}
+	// g: the first ordinal after the gap whose identifiable effect is present
+	seenL := map[string]bool{}
+	for _, u := range got.Log {
+		seenL[u] = true
+	}
+	seenS := map[string]bool{}
+	for _, x := range strings.Split(strings.TrimSuffix(got.S, ","), ",") {
+		seenS[x] = true
+	}
+	g := 0
+	for o := m + 1; o <= pos && g == 0; o++ {
+		for _, op := range src.ops(o) {
+			if (op == 0 && seenL[src.uid(o)]) || (op == 2 && seenS[strconv.Itoa(o)]) {
+				g = o
+			}
+		}
+	}
+	if g == 0 {
+		return "entry-skipped"
+	}
 	rn.mu.Lock()
 	defer rn.mu.Unlock()
 	late := map[int]string{}
@@ -994,8 +1014,11 @@ func (rn *runner) classifySkip(src *source, pos int, got srcData, obs map[string
 			// the first answer "ok" for a call that carried m: everything before it failed or is unknown
 			break
 		}
-		if e.Path != pathNode && e.To > m {
+		if e.Path != pathNode && e.To >= g {
+			// one pipelined call, not acknowledged, carried both the missing ordinal m and
+			// the applied ordinal g > m
 			obs["first_missing_ordinal"] = m
+			obs["first_applied_ordinal_after_the_gap"] = g
 			obs["pipelined_call_not_acknowledged"] = e
 			return "entry-skipped/tail-of-unacknowledged-pipelined-batch-applied"
 		}
